@@ -902,3 +902,68 @@ def n4c_map(text):
         text = apply_edits(text, edits)
         recs.append(dict(rule='N4c', before='X.map(|%s| B) with B capturing &mut' % name, after='match X { Some(%s) => Some(B), None => None }' % name))
     return text, recs
+
+
+def n16_add_assign(text):
+    """N16: statement `LHS += RHS;` on a generic `T: AddAssign` -> `AddAssign::add_assign(&mut LHS, RHS);`
+    (the language's own desugaring of the compound assignment operator)."""
+    recs = []
+    while True:
+        ft = FnText(text)
+        toks = ft.toks
+        hit = None
+        for k in ft.c:
+            if ft.body_open is None or k <= ft.body_open:
+                continue
+            t = toks[k]
+            if t.kind == 'punct' and t.text == '+=':
+                # statement start: previous `;`, `{` or `}` at any depth going backwards (same nesting)
+                j = k - 1
+                depth = 0
+                while j >= 0:
+                    w = toks[j]
+                    if w.kind == 'punct':
+                        if w.text in CLOSE:
+                            depth += 1
+                        elif w.text in OPEN:
+                            if depth == 0:
+                                break
+                            depth -= 1
+                        elif w.text == ';' and depth == 0:
+                            break
+                    j -= 1
+                start = j + 1
+                while toks[start].kind in ('ws', 'lcomment', 'bcomment', 'doc'):
+                    start += 1
+                # `unsafe { *x += v }` : start may be `unsafe`? then the `{` search stopped at its brace already
+                e = k + 1
+                depth = 0
+                while e < len(toks):
+                    w = toks[e]
+                    if w.kind == 'punct':
+                        if w.text in OPEN:
+                            depth += 1
+                        elif w.text in CLOSE:
+                            if depth == 0:
+                                break
+                            depth -= 1
+                        elif w.text == ';' and depth == 0:
+                            break
+                    e += 1
+                last = e - 1
+                while toks[last].kind in ('ws', 'lcomment', 'bcomment', 'doc'):
+                    last -= 1
+                lhs_end = k - 1
+                while toks[lhs_end].kind in ('ws', 'lcomment', 'bcomment', 'doc'):
+                    lhs_end -= 1
+                hit = (start, lhs_end, k, last)
+                break
+        if hit is None:
+            break
+        start, lhs_end, k, last = hit
+        lhs = text[toks[start].start:toks[lhs_end].end]
+        rhs = text[toks[k].end:toks[last].end].strip()
+        new = 'AddAssign::add_assign(&mut %s, %s)' % (lhs, rhs)
+        text = text[:toks[start].start] + new + text[toks[last].end:]
+        recs.append(dict(rule='N16', before='%s += %s' % (squash(lhs), squash(rhs)[:30]), after='AddAssign::add_assign(&mut .., ..)'))
+    return text, recs
